@@ -497,7 +497,12 @@ impl ItemizedBlock {
             // of the new line_start. We update the indent because it effects the max width
             // of each formatted line.
             line_start = itemized_block_quote_start(line, line_start, 2);
-            indent = line_start.len();
+            // The markers of the line need not be followed by a space each (`> >x`): do not
+            // split the line beyond its end or inside a character.
+            indent = line_start.len().min(line.len());
+            while !line.is_char_boundary(indent) {
+                indent -= 1;
+            }
         }
         Some(ItemizedBlock {
             lines: vec![line[indent..].to_string()],
